@@ -236,7 +236,7 @@ export async function run(ctx) {
         }
       }
   }
-  const nProgs = ctx.share(8000, 120000);
+  const nProgs = ctx.share(32000, 120000);
   let sampled = 0;
   const loops = [
     { label: "C16", count: Math.ceil(nProgs * 0.8), features: FEATURES },
